@@ -18,7 +18,7 @@ from fractions import Fraction
 
 from .algebra import Ctx, Poly, Rat, num
 from .core import AnalysisError
-from .spec.si import DIMS, SUBKINDS, result_kind
+from .spec.si import DIMS, SUBKINDS, SIGN, result_kind
 from .srcmodel import Model, strip_docstring
 from .units import UnitTables, const_fold
 
@@ -691,8 +691,8 @@ class SX:
             return self.while_concrete(s, st, frame)
         if isinstance(s, ast.Match) and self.eval_comprehensions:
             return self.match_stmt(s, st, frame)
-        if isinstance(s, ast.For) and self.eval_comprehensions:
-            r = self.for_unrolled(s, st, frame)
+        if isinstance(s, ast.For) and (self.eval_comprehensions or isinstance(s.iter, (ast.Tuple, ast.List))):
+            r = self.for_unrolled(s, st, frame)       # a loop over a literal tuple/list is always unrolled
             if r is not None:
                 return r
         if isinstance(s, ast.For):
@@ -758,7 +758,7 @@ class SX:
                     res.append(r)
                     continue
                 s, (base, idx) = r
-                res.append(Outcome(s.with_effect(('setitem', self.show(base), self.show(idx), value, lineno)), 'fall'))
+                res.append(Outcome(s.with_effect(('setitem', self.show(base), self.show(idx), value, lineno, idx)), 'fall'))
             return res
         if isinstance(target, (ast.Tuple, ast.List)) and isinstance(value, Tv) and len(value.items) == len(target.elts):
             cur = [st]
@@ -1085,6 +1085,17 @@ class SX:
                     continue
                 s, (l, rr) = r
                 out = self.binop(n.op, l, rr, s, n)
+                if self.inline_ctor_guards and isinstance(out, Q) and out.kind in SIGN and not isinstance(n.op, ast.Div):
+                    # the result of arithmetic on a sign-constrained kind is built by that kind's constructor (C19):
+                    # the operation raises ValueError when the result violates the constraint
+                    ok = make_cmp('<' if SIGN[out.kind] == 'pos' else '<=', -out.term)
+                    a, b = s.with_guard(ok), s.with_guard(ok.negate())
+                    if b is not None:
+                        res.append(Outcome(b.with_effect(('sign-violation', out.kind, ast.unparse(n)[:60], getattr(n, 'lineno', 0))),
+                                           'raise', 'ValueError', getattr(n, 'lineno', 0)))
+                    if a is not None:
+                        res.append((a, out))
+                    continue
                 res.append(out if isinstance(out, Outcome) else (s, out))
             return res
         if isinstance(n, ast.BoolOp) and self.eval_comprehensions:
@@ -1944,7 +1955,10 @@ class SX:
                     s, vals = r
                     args = vals[:len(argnodes)]
                     kwargs = {k: v for (k, _), v in zip(kwnodes, vals[len(argnodes):])}
-                    if isinstance(callee, Cv) and self.model.is_quantity(callee.name):
+                    hooked = self.call_hook(self, n, f, callee, args, kwargs, s, frame) if self.call_hook is not None else None
+                    if hooked is not None:
+                        res.extend(hooked)
+                    elif isinstance(callee, Cv) and self.model.is_quantity(callee.name):
                         res.extend(self.construct(n, callee.name, args, kwargs, s, frame))
                     else:
                         res.append((s.with_effect(('opaque-call', self.show(callee), args, kwargs, n.lineno)), Unk(ast.unparse(n)[:80])))
